@@ -141,6 +141,12 @@ func RunCheck(o CheckOpts) int {
 		}
 		for ck := range e.calleeUsed {
 			if c := w.Contracts.Funcs[ck]; c != nil && !c.Trusted && !inWork[ck] && !strings.HasPrefix(c.Name, "interface ") {
+				if len(c.props) > 0 && !c.props[o.Prop] {
+					// the callee's clauses belong to other properties: nothing of it is assumed beyond its frame, which
+					// those properties' runs prove
+					assumed["frame of "+c.Name+" (proved in the runs of "+strings.Join(sortedKeys(c.props), ",")+")"] = true
+					continue
+				}
 				inWork[ck] = true
 				work = append(work, ck)
 			}
@@ -173,7 +179,7 @@ func RunCheck(o CheckOpts) int {
 		}
 		fmt.Printf("govc: encoded %d functions, %d obligations in %.1fs\n", len(encs), len(all), time.Since(start).Seconds())
 	}
-	timeout := 10 * time.Second
+	timeout := 20 * time.Second
 	if o.Tier == "thorough" {
 		timeout = 60 * time.Second
 	}
